@@ -14,6 +14,8 @@ use rustc_hash::FxHasher;
 use oxidd_core::Tag;
 use oxidd_core::error::OutOfMemory;
 use oxidd_core::util::AllocResult;
+#[cfg(oxidd_verif)]
+use oxidd_core::util::verif_locks as vl;
 
 use crate::manager::{Edge, InnerNodeCons, TerminalManagerCons};
 use crate::node::NodeBase;
@@ -122,7 +124,15 @@ where
 
     #[inline]
     fn len(&self) -> usize {
-        self.state.lock().unique_table.len()
+        #[cfg(not(oxidd_verif))]
+        let len = self.state.lock().unique_table.len();
+        #[cfg(oxidd_verif)]
+        let len = {
+            let state = self.state.lock();
+            let _tok = vl::token(vl::Class::TermState, 0, vl::Mode::Excl, true);
+            state.unique_table.len()
+        };
+        len
     }
 
     #[inline]
@@ -156,6 +166,8 @@ where
     #[inline]
     fn get_edge(&self, terminal: T) -> AllocResult<Edge<'id, N, ET>> {
         let mut state = self.state.lock();
+        #[cfg(oxidd_verif)]
+        let _tok = vl::token(vl::Class::TermState, 0, vl::Mode::Excl, true);
         let hash = hash(&terminal);
         let id = match state.unique_table.find_or_find_insert_slot(
             hash,
@@ -205,9 +217,13 @@ where
         Self: 'a,
     {
         let state = self.state.lock();
+        #[cfg(oxidd_verif)]
+        let tok = vl::token(vl::Class::TermState, 0, vl::Mode::Excl, true);
         let len = state.unique_table.len();
         DynamicTerminalIterator {
             store: &self.store,
+            #[cfg(oxidd_verif)]
+            _tok: tok,
             state,
             next_slot: 0,
             len,
@@ -218,6 +234,8 @@ where
     fn gc(&self) -> u32 {
         let mut collected = 0;
         let mut state = self.state.lock();
+        #[cfg(oxidd_verif)]
+        let _tok = vl::token(vl::Class::TermState, 0, vl::Mode::Excl, true);
         // Use a local variable here because otherwise, the borrow checker
         // complains about `state` being borrowed mutably twice. In case of a
         // panic (which should not happen) we would potentially loose a few
@@ -272,6 +290,10 @@ impl<
 
 pub struct DynamicTerminalIterator<'a, 'id, T, N, ET> {
     store: &'a [UnsafeCell<Slot<T>>],
+    /// Lock-trace instrumentation: logs the release of the state mutex.
+    /// Declared before `state` such that it is dropped before the guard.
+    #[cfg(oxidd_verif)]
+    _tok: vl::Token,
     state: MutexGuard<'a, State<'id, N, ET>>,
     next_slot: usize,
     len: usize,
